@@ -48,11 +48,17 @@ def readPair (c0 c1 : Nat) (r : RowObj α) : Option (α × α) :=
 def path2 (rows : List (RowObj α)) (c0 c1 : Nat) : Option (List (List α)) :=
   (rows.mapM (readPair c0 c1)).map fun cells => [cells.map Prod.fst, cells.map Prod.snd]
 
+/-- The dispatch on the number of requested columns (pyx 131–152).  Which widths are specialised and
+which position of `columns` feeds each result row are the *generated* constants (the source as it
+is now); reading `columns[k]` beyond the buffer is an unchecked read as well. -/
 def paths (rows : List (RowObj α)) (cols : List Nat) : Option (List (List α)) :=
-  match cols with
-  | [c0] => path1 rows c0
-  | [c0, c1] => path2 rows c0 c1
-  | _ => pathN rows cols
+  if cols.length = Gen.Kernels.fastWidth1 then
+    (cols[Gen.Kernels.path1Src]?).bind fun c0 => path1 rows c0
+  else if cols.length = Gen.Kernels.fastWidth2 then
+    match cols[Gen.Kernels.path2Src0]?, cols[Gen.Kernels.path2Src1]? with
+    | some c0, some c1 => path2 rows c0 c1
+    | _, _ => none
+  else pathN rows cols
 
 /-- Number of rows collected (pyx 119–121): the limit replaces the row count when the *generated*
 guard holds (`limit >= 0 and limit < num_rows` in the source as it is now). -/
@@ -72,6 +78,22 @@ def collect (rows : List (RowObj α)) (cols : List Int) (limit : Int) : Outcome 
         match paths (rows.take (effectiveRows rows.length limit)) (cols.map Int.toNat) with
         | some m => .ok m
         | none => .oob
+
+/-! `extract_dict_columns` (pyx 74–99) with its memory accesses explicit: `fields[i]` is an unchecked
+tuple read and `field_data[i] = …` an unchecked list write (`boundscheck=False`); the field count,
+the size of the allocated list and the loop bound are the *generated* expressions. -/
+def extractStep (null : α) (fields : List String) (d : List (String × α)) (buf : Option (List α)) (i : Nat) :
+    Option (List α) :=
+  buf.bind fun b =>
+    match fields[i]? with
+    | none => none                                                      -- read beyond the tuple
+    | some f => if i < b.length then some (b.set i ((DictRow.lookup f d).getD null)) else none  -- write beyond the list
+
+/-- `none` = some access left the tuple of fields or the allocated list. -/
+def extractLoop (null : α) (fields : List String) (d : List (String × α)) : Option (List α) :=
+  let n : Int := Gen.Kernels.extractCount fields.length
+  (List.range (Gen.Kernels.extractBound n).toNat).foldl (extractStep null fields d)
+    (some (List.replicate (Gen.Kernels.extractAlloc n).toNat null))
 
 /-- `calculate_data_width`: rendered lengths of the non-null values (`none` = null), floor 4. -/
 def widthStep (acc : Nat) (l : Option Nat) : Nat :=
